@@ -376,7 +376,9 @@ def vm_crosscheck(plugin, pairs):
     """Evaluate a sample inside Coq (vm_compute) and compare with the extracted run."""
     if not pairs:
         return True, "no sample"
-    wd = os.path.join(WORK, plugin.ID, "vm")
+    # one directory per process: two runs of the same property at the same time (a seeded-change evaluation next to
+    # a sweep) used to delete each other's Cases.v ("Can't open ./Cases.vo" reported as a broken extraction)
+    wd = os.path.join(WORK, plugin.ID, "vm-%d" % os.getpid())
     shutil.rmtree(wd, ignore_errors=True)
     os.makedirs(wd)
     mod, fn = plugin.COQ_RUN
@@ -395,6 +397,7 @@ def vm_crosscheck(plugin, pairs):
         timeout=630,
     )
     ok = rc == 0 and re.search(r"=\s*true\s*:\s*bool", out) is not None
+    shutil.rmtree(wd, ignore_errors=True)
     return ok, out[-1500:]
 
 
